@@ -18,6 +18,7 @@ import (
 func caseC18Resource(c *Ctx) {
 	if c.Case%500 == 0 {
 		checkTypeLists(c)
+		checkGenericKinds(c)
 	}
 	gw, kw := ecs.NewWorld(), ecs.NewWorld()
 	keys := []string{"S0", "S1", "S2", "S3", "S4", "S5", "S6", "S7", "S8", "S9", "S10", "S11", "R0", "R1", "Q0", "Q1", "Q2", "Q3", "Q4", "Q5", "Q6"}
@@ -243,4 +244,107 @@ func checkTypeLists(c *Ctx) {
 		}
 	}
 	c.Cov.N["type_lists_checked"] += len(got)
+}
+
+type kindStringer struct{ s string }
+
+func (k kindStringer) String() string { return k.s }
+
+// kindProbe runs the generic entry points for one component type of an unusual kind against the ID-based core.
+func kindProbe[T any](c *Ctx, name string, val T, same func(a, b *T) bool) bool {
+	want := reflect.TypeOf((*T)(nil)).Elem()
+	if got := generic.T[T](); got != want {
+		c.Fail(Violation{Kind: "generic.kind", Msg: fmt.Sprintf("generic.T[%s]() is %v, the type parameter is %v", name, got, want)}, nil)
+		return false
+	}
+	if l := generic.T1[T](); len(l) != 1 || l[0] != want {
+		c.Fail(Violation{Kind: "generic.kind", Msg: fmt.Sprintf("generic.T1[%s]() is %v", name, l)}, nil)
+		return false
+	}
+	w := ecs.NewWorld()
+	for i := 0; i < c.R.Intn(5); i++ {
+		ecs.TypeID(&w, TypeOfKey(fmt.Sprintf("F%d", 9400+i)))
+	}
+	other := ecs.ComponentID[G0](&w)
+	failed := false
+	func() {
+		defer func() {
+			if p := recover(); p != nil {
+				failed = true
+				c.Fail(Violation{Kind: "generic.kind", Msg: fmt.Sprintf("component type %s: the generic API panicked where the ID-based calls work: %v", name, p)}, nil)
+			}
+		}()
+		m := generic.NewMap1[T](&w)
+		e1 := m.NewWith(&val)
+		id := ecs.ComponentID[T](&w)
+		if info, _ := ecs.ComponentInfo(&w, id); info.Type != want {
+			tp := info.Type
+			c.Fail(Violation{Kind: "generic.kind", Msg: fmt.Sprintf("ComponentID[%s] registered %v", name, tp)}, nil)
+			failed = true
+			return
+		}
+		e2 := w.NewEntity(id, other)
+		*(*T)(w.Get(e2, id)) = val
+		w.NewEntity(other)
+		count := func(q interface{ Next() bool }, n int, what string) {
+			k := 0
+			for q.Next() {
+				k++
+			}
+			if k != n && !failed {
+				failed = true
+				c.Fail(Violation{Kind: "generic.kind", Msg: fmt.Sprintf("component type %s: %s selects %d entities, the equivalent core filter selects %d", name, what, k, n)}, nil)
+			}
+		}
+		f1 := generic.NewFilter1[T]()
+		q1 := f1.Query(&w)
+		for q1.Next() {
+			if p := q1.Get(); p != (*T)(w.Get(q1.Entity(), id)) || !same(p, &val) {
+				failed = true
+				c.Fail(Violation{Kind: "generic.kind", Msg: fmt.Sprintf("component type %s: Query1.Get returns %p, World.Get %p (or the value differs)", name, p, w.Get(q1.Entity(), id))}, nil)
+				q1.Close()
+				return
+			}
+		}
+		qq1 := generic.NewFilter1[T]().Query(&w)
+		count(&qq1, 2, "Filter1")
+		qq2 := generic.NewFilter0().With(generic.T[T]()).Query(&w)
+		count(&qq2, 2, "Filter0.With")
+		qq3 := generic.NewFilter1[G0]().Without(generic.T[T]()).Query(&w)
+		count(&qq3, 1, "Filter1.Without")
+		qq4 := generic.NewFilter2[G0, T]().Optional(generic.T[T]()).Query(&w)
+		count(&qq4, 2, "Filter2.Optional")
+		qq5 := generic.NewFilter1[T]().Exclusive().Query(&w)
+		count(&qq5, 1, "Filter1.Exclusive")
+		x := generic.NewExchange(&w).Adds(generic.T[G0]()).Removes(generic.T[T]())
+		x.Exchange(e1)
+		if w.Has(e1, id) || !w.Has(e1, other) {
+			failed = true
+			c.Fail(Violation{Kind: "generic.kind", Msg: fmt.Sprintf("component type %s: Exchange did not remove it / add the other component", name)}, nil)
+			return
+		}
+		if m.Get(e2) != (*T)(w.Get(e2, id)) || m.Get(e1) != nil {
+			failed = true
+			c.Fail(Violation{Kind: "generic.kind", Msg: fmt.Sprintf("component type %s: Map1.Get disagrees with World.Get", name)}, nil)
+		}
+	}()
+	c.Cov.N["generic_kinds_probed"]++
+	return !failed
+}
+
+func checkGenericKinds(c *Ctx) {
+	g := &G0{}
+	pg := &g
+	ch := make(chan int)
+	_ = kindProbe[*G0](c, "*G0", g, func(a, b **G0) bool { return *a == *b }) &&
+		kindProbe[**G0](c, "**G0", pg, func(a, b ***G0) bool { return *a == *b }) &&
+		kindProbe[int](c, "int", 7, func(a, b *int) bool { return *a == *b }) &&
+		kindProbe[[3]G0](c, "[3]G0", [3]G0{}, func(a, b *[3]G0) bool { return *a == *b }) &&
+		kindProbe[chan int](c, "chan int", ch, func(a, b *chan int) bool { return *a == *b }) &&
+		kindProbe[fmt.Stringer](c, "fmt.Stringer", kindStringer{"x"}, func(a, b *fmt.Stringer) bool { return *a == *b }) &&
+		kindProbe[any](c, "any", 42, func(a, b *any) bool { return *a == *b }) &&
+		kindProbe[error](c, "error", nil, func(a, b *error) bool { return *a == *b }) &&
+		kindProbe[func() int](c, "func() int", nil, func(a, b *func() int) bool { return *a == nil && *b == nil }) &&
+		kindProbe[map[string]int](c, "map[string]int", nil, func(a, b *map[string]int) bool { return *a == nil && *b == nil }) &&
+		kindProbe[[]G0](c, "[]G0", nil, func(a, b *[]G0) bool { return *a == nil && *b == nil })
 }
